@@ -165,6 +165,18 @@ def cases(tier, seed):
                 continue
             for bo in BYTEORDS[:2]:
                 yield dict(kind='int', widths=list(widths), byteord=bo, rk=list(rk))
+    # many parameters (>= 10: the keyword numbers $P1B, $P10B, $P2B ... no longer sort like the parameters): every rotation of
+    # the width ladder and of the range kinds, so that any permutation of per-parameter keywords moves a width or a mask
+    for D in ((9, 10, 11, 13) if tier == 'quick' else (9, 10, 11, 12, 13, 20, 21, 23, 100, 101, 111)):
+        for s in range(len(WIDTHS)):
+            widths = [WIDTHS[(s + i * (1 if D < 100 else 3)) % len(WIDTHS)] for i in range(D)]
+            for bo in BYTEORDS:
+                for r in range(len(RKINDS)):
+                    yield dict(kind='int', widths=widths, byteord=bo, rk=[RKINDS[(r + i) % len(RKINDS)] for i in range(D)],
+                               end=('last', 'onepast')[s % 2], offsets=('header', 'text')[r % 2], n=4)
+        for dt in ('F', 'D'):
+            for bo in BYTEORDS[:2]:
+                yield dict(kind='float', datatype=dt, D=D, byteord=bo, n=3)
     if tier == 'thorough':
         for w in WIDTHS:
             for bo in BYTEORDS:
@@ -218,6 +230,7 @@ def cases(tier, seed):
 
 def bounds(tier, seed):
     return {'complete_product_D': [1, 2] if tier == 'quick' else [1, 2, 3],
+            'many_parameters_D': [9, 10, 11, 13] if tier == 'quick' else [9, 10, 11, 12, 13, 20, 21, 23, 100, 101, 111],
             'deviation_bound': 2 if tier == 'quick' else 3}
 
 
